@@ -71,8 +71,15 @@ def call_summarize(tracks, res, margin):
     try:
         with core.quiet():
             coll = make_collection(tracks)
-            r = summarize(coll, ["tag", "v", "v", "v", "v", "v", "v"],
-                          [co_count, co_count, co_sum, co_min, co_max, co_avg, co_median], resolution=res, margin=margin, verbose=False)
+            # the six requests on the feature come in an order that depends on the call (every cell list is shared by all of them)
+            ops = [co_count, co_sum, co_min, co_max, co_avg, co_median]
+            h = (len(flat) * 7 + sum(int(8 * x) + 3 * int(8 * y) for (x, y, _v) in flat)) % 720
+            order = []
+            for k in range(6, 0, -1):
+                order.append(ops.pop(h % k))
+                h //= k
+            e["cfg"] += " order=" + ",".join(o.__name__ for o in order)
+            r = summarize(coll, ["tag"] + ["v"] * 6, [co_count] + order, resolution=res, margin=margin, verbose=False)
         e["g"] = geom(r)
         nd = r.getNoDataValue()
         cells = []
@@ -182,6 +189,10 @@ def run(ctx):
     ctx.tlc_mc("RasterGrid", c, label="getCell transcription inside footprint")
     c = ctx.write_cfg("RGa.cfg", mc_cfg("agg"))
     ctx.tlc_mc("RasterGrid", c, label="cell operators = aggregate definition")
+    ctx.tlc_mc("RasterGrid", ctx.write_cfg("RGr.cfg", mc_cfg("req").replace("INVARIANT AggIsDefinition", "INVARIANT RequestOrderIrrelevant")),
+               label="request lists: every aggregate answered from the cell's values whatever the order")
+    ctx.tlc_mc("RasterGrid", ctx.write_cfg("RGrl.cfg", mc_cfg("req", legacy=True).replace("INVARIANT AggIsDefinition", "INVARIANT RequestOrderIrrelevant")),
+               label="self-test: a median that consumes the shared cell list is refuted", expect_violation="RequestOrderIrrelevant")
     c = ctx.write_cfg("RGl.cfg", mc_cfg("agg", legacy=True))
     ctx.tlc_mc("RasterGrid", c, label="self-test: pinned cell operators refuted", expect_violation="AggIsDefinition")
     import multiprocessing as mp
